@@ -74,6 +74,9 @@ def run(replay=None):
             except Exception as e:  # noqa
                 rep.skip('derived:' + exc_name(e))
     rep.count('properties_with_derived_disjunctions', nder)
+    if not thorough:
+        # quick tier: every second shape, and every shape with a derived disjunction or a literal False / True predicate
+        props = [p for i, p in enumerate(props) if i % 2 == 0 or '[an alternative moved' in p['text'] or 'False' in p['text'] or 'True' in p['text']]
     rep.count('properties', len(props))
     rep.count('properties_split', sum(1 for p in props if len(p['parts']) > 1))
     os.makedirs(tlc.BUILD, exist_ok=True)
